@@ -35,15 +35,15 @@ int run(const Args &args, const std::vector<Level<Case>> &levels, const std::fun
   if (!args.replay.empty()) {
     vf::J j = vf::jparse(vf::slurp(args.replay)); const vf::J &cj = j.has("case") ? j["case"] : j;
     Case c = Case::from(cj); std::string err, out;
-    std::string how = vf::run_isolated([&]() { vf::Stats st; oracle(c, st); for (auto &v : st.viol) printf("REPLAY-VIOLATION %s\n", v.what.c_str()); return st.nviol ? 1 : 0; }, case_limit_s * 20, &err, &out);
+    std::string how = vf::run_isolated([&]() { vf::Stats st; oracle(c, st); for (auto &v : st.viol) printf("REPLAY-VIOLATION %s\n", v.what.c_str()); return st.nviol ? 3 : 0; }, case_limit_s * 5, &err, &out);
     fputs(out.c_str(), stdout);
     if (how.empty()) { printf("REPLAY-OK property=%s no violation on this case\n", args.prop.c_str()); return 0; }
-    if (how != "exit 1") printf("REPLAY-VIOLATION crash (%s): %s\n", how.c_str(), err.substr(0, 1500).c_str());
+    if (how != "exit 3") printf("REPLAY-VIOLATION crash (%s): %s\n", how.c_str(), err.substr(0, 1500).c_str());
     return 1;
   }
   double deadline = args.deadline_s > 0 ? vf::now_s() + args.deadline_s : 0;
   vf::Stats total; std::vector<std::string> done, planned;
-  for (auto &l : levels) planned.push_back(l.name);
+  { int k = -1; for (auto &l : levels) { k++; if (k >= args.level_from && k < args.level_to) planned.push_back(l.name); } }
   int li = -1;
   for (auto &l : levels) {
     li++;
@@ -66,7 +66,7 @@ int run(const Args &args, const std::vector<Level<Case>> &levels, const std::fun
           int repro = 0; std::string err, how;
           for (int k = 0; k < 2; k++) {
             vf::J cj = vf::jparse(ci.casejson); Case c = Case::from(cj);
-            how = vf::run_isolated([&]() { vf::Stats s2; oracle(c, s2); return 0; }, case_limit_s * 20, &err);
+            how = vf::run_isolated([&]() { vf::Stats s2; oracle(c, s2); return 0; }, case_limit_s * 5, &err);
             if (!how.empty()) repro++;
           }
           if (repro == 2) {
